@@ -156,27 +156,42 @@ Qed.
 (** ** the integer SUM aggregate *)
 Lemma in_i64b_true : forall r, in_i64 r -> in_i64b r = true.
 Proof. intros r H. apply in_i64b_spec. exact H. Qed.
-Lemma sum_int_refuted_l : sum_int Checked 0 [i64_max; 1] = Panic /\ sum_int Checked 0 [i64_max; i64_max] = Panic /\
-  sum_int Checked 0 [i64_min; -1] = Panic /\ sum_int Checked 0 [i64_max; 1; -5] = Panic.
+Lemma sum_int_refuted_l : sum_int_pre Checked 0 [i64_max; 1] = Panic /\ sum_int_pre Checked 0 [i64_max; i64_max] = Panic /\
+  sum_int_pre Checked 0 [i64_min; -1] = Panic /\ sum_int_pre Checked 0 [i64_max; 1; -5] = Panic.
 Proof. repeat split. Qed.
-Lemma sum_int_wrapping_total_l : forall vs acc, sum_int Wrapping acc vs <> Panic.
-Proof. induction vs as [|v r IH]; intro acc; cbn [sum_int add_i64 rbind]; [discriminate|apply IH]. Qed.
-Lemma sum_int_exact_l : forall m vs acc, prefixes_fit acc vs -> sum_int m acc vs = Ok (acc + zsum vs).
+Lemma sum_int_wrapping_total_l : forall vs acc, sum_int_pre Wrapping acc vs <> Panic.
+Proof. induction vs as [|v r IH]; intro acc; cbn [sum_int_pre add_i64 rbind]; [discriminate|apply IH]. Qed.
+Lemma sum_int_exact_l : forall m vs acc, prefixes_fit acc vs -> sum_int_pre m acc vs = Ok (acc + zsum vs).
 Proof.
-  intros m vs. induction vs as [|v r IH]; intros acc H; cbn [sum_int zsum].
+  intros m vs. induction vs as [|v r IH]; intros acc H; cbn [sum_int_pre zsum].
   - f_equal. lia.
   - destruct H as [Hv Hr]. unfold add_i64. destruct m.
     + rewrite (in_i64b_true _ Hv). cbn [rbind]. rewrite IH by assumption. f_equal. lia.
     + rewrite (sint64_small _ Hv). cbn [rbind]. rewrite IH by assumption. f_equal. lia.
 Qed.
 (** in the checked build the sum panics exactly when some partial sum does not fit *)
-Lemma sum_int_checked_panics_iff_l : forall vs acc, sum_int Checked acc vs = Panic <-> ~ prefixes_fit acc vs.
+Lemma sum_int_checked_panics_iff_l : forall vs acc, sum_int_pre Checked acc vs = Panic <-> ~ prefixes_fit acc vs.
 Proof.
-  induction vs as [|v r IH]; intro acc; cbn [sum_int prefixes_fit add_i64 rbind].
+  induction vs as [|v r IH]; intro acc; cbn [sum_int_pre prefixes_fit add_i64 rbind].
   - split; [discriminate|tauto].
   - destruct (in_i64b (acc + v)) eqn:E; cbn [rbind].
     + rewrite IH. assert (in_i64 (acc + v)).
       { unfold in_i64b in E. apply andb_prop in E as [H1 H2]. apply Z.leb_le in H1. apply Z.ltb_lt in H2. split; assumption. }
       tauto.
     + split; [|reflexivity]. intros _ [H _]. rewrite (in_i64b_true _ H) in E. discriminate.
+Qed.
+
+(** the repaired aggregate: an integer total exactly when every partial sum fits, otherwise a float *)
+Lemma sum_repair_exact_l : forall vs acc,
+  sum_int acc vs = match sum_int_pre Checked acc vs with Ok t => Some t | Panic => None end.
+Proof.
+  induction vs as [|v r IH]; intro acc; cbn [sum_int sum_int_pre add_i64 rbind]; [reflexivity|].
+  destruct (in_i64b (acc + v)); cbn [rbind]; [apply IH|reflexivity].
+Qed.
+Lemma sum_int_exact_cur_l : forall vs acc, prefixes_fit acc vs -> sum_int acc vs = Some (acc + zsum vs).
+Proof. intros vs acc H. rewrite sum_repair_exact_l, (sum_int_exact_l Checked vs acc H). reflexivity. Qed.
+Lemma sum_int_float_iff_l : forall vs acc, sum_int acc vs = None <-> ~ prefixes_fit acc vs.
+Proof.
+  intros vs acc. rewrite sum_repair_exact_l, <- sum_int_checked_panics_iff_l.
+  destruct (sum_int_pre Checked acc vs); split; intro H; try discriminate; reflexivity.
 Qed.
